@@ -19,7 +19,7 @@ yen = KaniUnit("c13_yen", CORE,
                            subst=[("prev_accepted_path.len()", "len")])],
                modules=[dict(file=CORE + "/src/algorithm/search/search_instance.rs", src="world.rs"), dict(file=YEN, src="c13_yen.rs")],
                harnesses=[H("c13_yen_spur_range_no_underflow", "complete", "yens_algorithm::run: the spur range `0..prev_accepted_path.len()<..>` neither underflows nor leaves the previous path, for any stored route (len >= 1)", timeout=120)])
-yen.native_witnesses = ['c13_wit_yen_one_edge_route', 'c13_wit_yen_two_edge_route_returns']
+yen.native_witnesses = ['c13_wit_yen_one_edge_route', 'c13_wit_yen_two_edge_route_returns', 'c13_wit_yen_three_edge_route_with_detour', 'c13_wit_yen_spur_vertex_without_alternative', 'c13_wit_yen_at_most_k_distinct_routes']
 sv = VerusUnit("c13_single_via", "c13_single_via", rlimit=60)
 UNITS = [sv, sim, term, yen]
 EXPLANATION = ("single-via driver UNDER CONTRACT (unit c13_single_via, Verus, verbatim `run`, any graph / k / criteria / similarity function): at most k routes; with k >= 1 at least one and the first is the "
